@@ -8,6 +8,14 @@ def _rgen(**kw):
     return {"module": "Registry", "cfg": "Registry_gen.cfg", "params": p}
 
 
+def _rsim(num, depth, **kw):
+    p = {"Eps": '{"e1", "e2", "e3"}', "MaxLen": depth, "Listings": "ListingsAll", "BadLists": "BadAll",
+         "FailKinds": "FailAll", "Filters": "FiltersAll", "FailBodies": "BodiesTwo", "Conc": "TRUE"}
+    p.update(kw)
+    return {"module": "RegistryGen", "cfg": "Registry_sim.cfg", "params": p,
+            "simulate": {"num": num, "depth": depth + 1}}
+
+
 def _nontrivial(s):
     names = [o[0] for o in s.get("ops", [])]
     return any(n in ("Bad", "Fail", "Rm") for n in names) and "Reg" in names
@@ -26,7 +34,7 @@ def register(PROPS, HARNESS_PKGS):
                 "name": "catalogue",
                 "mc": [{"module": "Registry", "cfg": "Registry_mc.cfg", "quick_params": {"MaxLen": 3, "Conc": "TRUE"},
                         "thorough_params": {"MaxLen": 3, "Conc": "TRUE"}}],
-                "quick": {"gen": [_rgen(), _rgen(Conc="TRUE", Eps='{"e1", "e2", "e3"}', MaxLen=1, Filters="FiltersQuick")]},
+                "quick": {"gen": [_rgen(), _rsim(2500, 4)]},
                 "thorough": {"gen": [_rgen()]},
                 "pkg": "internal/adapter/discovery", "test": "TestVerif_Catalogue",
                 "harness_dirs": ["c10disc", "c10reg"],
